@@ -15,7 +15,9 @@ LEVEL = "exploration"
 RULE = (
     "G-history pipeline on diploid G-genome data (1-2 samples, SNV / insertion / deletion / MNP variants incl. ones inside "
     "homopolymers, error-free reads, single and paired; a quarter of the runs with linked reads: BX barcodes on islands of "
-    "variants > 50 kb apart, the same barcode recurring on distant molecules of either haplotype; a quarter with --only-indels): truth VCF phased with PS in 1-4 blocks per contig (bgzip+tabix) -> "
+    "variants > 50 kb apart, the same barcode recurring on distant molecules of either haplotype; a quarter with --only-indels; 30% on a BAM that carries stale HP/PS/PC tags of "
+    "an earlier, different phasing, re-tagged with haplotag --regions; 30% with multi-allelic (0|2) and phased duplicate-position "
+    "records): truth VCF phased with PS in 1-4 blocks per contig (bgzip+tabix) -> "
     "whatshap haplotag on reads that each lie within one phase set -> tagged BAM; the VCF is then unphased completely or "
     "partially (a random subset of variants keeps its phase; by an own rewrite or by whatshap unphase) -> whatshap "
     "haplotagphase with default thresholds. Oracle (own decoders): every variant phased in the result has exactly the truth's "
@@ -113,9 +115,15 @@ def run_one(rng, counters):
             keep_names[name] = len(seen) <= 1 and (cover == "full" or rng.random() < 0.5)
         fbam = os.path.join(tmp, "confined.bam")
         n_kept = 0
+        retag = rng.random() < 0.3
         with pysam.AlignmentFile(fbam, "wb", header=hdr) as out:
             for a in src:
                 if keep_names.get(a.query_name):
+                    if retag and rng.random() < 0.6:
+                        # the BAM was tagged before, with another phasing: stale HP/PS/PC values
+                        a.set_tag("HP", rng.randint(1, 2))
+                        a.set_tag("PS", 7)
+                        a.set_tag("PC", 50)
                     out.write(a)
                     n_kept += 1
         src.close()
@@ -125,8 +133,14 @@ def run_one(rng, counters):
         if n_kept == 0:
             return [], False, desc
         tagged = os.path.join(tmp, "tagged.bam")
+        hkw = {}
+        if retag and not linked:
+            # tagging restricted to a region: reads that reach into it but cover only variants outside cannot be assigned
+            c0 = rng.choice(sim.chroms)
+            s0 = rng.randint(0, 1200)
+            hkw["regions"] = ["%s:%d-%d" % (c0, s0 + 1, s0 + rng.randint(500, 1500))]
         try:
-            run_haplotag(variant_file=tvcf, alignment_file=fbam, output=tagged, reference=sim.fasta)
+            run_haplotag(variant_file=tvcf, alignment_file=fbam, output=tagged, reference=sim.fasta, **hkw)
         except Exception:
             tb = traceback.format_exc()
             return [{"mech": "haplotag-crash:" + tb.strip().splitlines()[-1].split(":")[0], "msg": tb[-1200:]}], False, desc
@@ -169,6 +183,8 @@ def run_one(rng, counters):
             tb = traceback.format_exc()
             return [{"mech": "crash:" + tb.strip().splitlines()[-1].split(":")[0], "msg": "run_haplotagphase raised: " + tb[-1500:]}], False, desc
         counters["runs_ok"] = counters.get("runs_ok", 0) + 1
+        if retag:
+            counters["runs_on_previously_tagged_bam"] = counters.get("runs_on_previously_tagged_bam", 0) + 1
         if linked:
             counters["linked_read_runs"] = counters.get("linked_read_runs", 0) + 1
         if only_indels:
